@@ -189,8 +189,8 @@ def main(argv=None):
     res, sk = R.run_sharded(worker, [mk(d) for d in smp + big], 100 if q else 2000)
     rep.add_results("sampled-larger", res, sk, exhaustive=False)
     import superrec2.compute.reconciliation as m1, superrec2.utils.trees as m9
-    rep.functions = R.source_digest(m1.reconcile_lca, m1.reconcile_thl, m1._compute_thl_table, m1._decode_thl_table,
-                                    m9.LowestCommonAncestor.__call__)
+    rep.functions = R.safe_digest(lambda: R.source_digest(m1.reconcile_lca, m1.reconcile_thl, m1._compute_thl_table, m1._decode_thl_table,
+                                    m9.LowestCommonAncestor.__call__))
     rep.bounds = {"exhaustive": f"every input with 1-4 object leaves x 1-{3 if q else 4} species leaves (plane shapes, every leaf assignment)",
                   "sampled": f"{len(smp)} seeded inputs with 4-5 object leaves, 2-5 species leaves" + ("" if q else "; 40 seeded inputs with 6-8 object leaves (oracle enumeration still exhaustive per input)"),
                   "naming": "every exhaustive input also with all ancestors of both trees unnamed (solutions read back by pre-order position) + seeded unnamed 4-5-leaf inputs",
